@@ -18,6 +18,19 @@ Theorem c12_checker_sound : forall (prog : program) (p : proof) (t1 t2 : term),
 Proof. exact checker_sound. Qed.
 Print Assumptions c12_checker_sound.
 
+(** Completeness of the proof format, for every program the checker accepts at all (distinct rule
+    names, evaluable top-level actions): every derivable equality has a proof object that the
+    checker accepts. With soundness: the accepted propositions are exactly the derivable ones. *)
+Theorem c12_checker_complete : forall prog g, ctx_new prog = Some g ->
+  forall a b, Derivable prog a b -> exists p, check g prog p = Some (a, b).
+Proof. exact checker_complete. Qed.
+Print Assumptions c12_checker_complete.
+
+Theorem c12_accepted_iff_derivable : forall prog g, ctx_new prog = Some g ->
+  forall a b, (exists p, check_proof prog p = Some (a, b)) <-> Derivable prog a b.
+Proof. exact accepted_iff_derivable. Qed.
+Print Assumptions c12_accepted_iff_derivable.
+
 (** The checker answers with exactly the proposition the root node claims. *)
 Theorem c12_checker_claims : forall g prog p phi,
   check g prog p = Some phi -> claimed p = Some phi.
